@@ -12,7 +12,7 @@ CONSTANTS
   BnVars = {"dflt"}
   SnoVars = {1}
   AllowPl = FALSE
-  AllowExcl = TRUE
+  AllowExcl = FALSE
   AllowReuse = FALSE
   AllowLin3 = FALSE
   AllowDrop = FALSE
